@@ -105,6 +105,14 @@ def op_cwrite_meta(fa, schema, records, codec, metadata):
     return b.getvalue()
 
 
+def op_cappend(fa, existing, schema, records):
+    """records appended to an existing container file (stream handed over at its end)"""
+    b = io.BytesIO(existing)
+    b.seek(0, 2)
+    fa.writer(b, schema, records)
+    return b.getvalue(), list(fa.reader(io.BytesIO(b.getvalue())))
+
+
 def op_tee_block(fa, data, codec_a, codec_b, look_first):
     """every block of a file copied into two new files; the Block objects are inputs and stay usable"""
     from fastavro.write import Writer
@@ -210,7 +218,7 @@ def op_load(fa, path):
     return strip(load_schema(path))
 
 
-OPS = {f.__name__[3:]: f for f in (op_parse, op_swrite, op_swrite_opts, op_cwrite_opts, op_sread, op_cwrite, op_cwrite_meta, op_tee_block, op_cread, op_validate, op_validate_many,
+OPS = {f.__name__[3:]: f for f in (op_parse, op_swrite, op_swrite_opts, op_cwrite_opts, op_sread, op_cwrite, op_cwrite_meta, op_cappend, op_tee_block, op_cread, op_validate, op_validate_many,
                                    op_pcf, op_jwrite, op_jread, op_generate, op_gen_roundtrip, op_expand, op_load)}
 
 
@@ -469,7 +477,7 @@ def _run_history(sh, fa, zy, rng, scratch, hidx, schemas, repo_dir, repo_root, r
                            "jwrite", "jread", "generate", "expand", "swrite_bad", "sread_trunc", "parse_unknown_ref", "cwrite_bad",
                            "gen_roundtrip", "gen_roundtrip", "dangling_ref", "dangling_ref", "load", "load_other",
                            "cwrite_meta", "cwrite_meta", "tee_block", "swrite_opts", "swrite_opts", "cwrite_opts",
-                           "sread_shared_reader", "sread_shared_reader"])
+                           "sread_shared_reader", "sread_shared_reader", "cappend", "cappend"])
         name, args, data_args = None, None, []
         if kind == "parse":
             name, args = "parse", (sarg, None)
@@ -533,6 +541,18 @@ def _run_history(sh, fa, zy, rng, scratch, hidx, schemas, repo_dir, repo_root, r
             # the caller's metadata dict is an input like any other, and is reused by later calls
             meta = objs.setdefault("meta", {"origin": "history %d" % hidx, "k": "v"})
             name, args = "cwrite_meta", (sarg, [d], rng.choice(["null", "deflate", "bzip2"]), meta)
+        elif kind == "cappend" and which in ("s1", "s2"):
+            # appending to a file whose own schema is this one or the OTHER definition of the same
+            # names, with the (possibly parsed and shared) schema object as argument
+            fkey = rng.choice(["s1", "s2"])
+            fjs, fnode = schemas[fkey]
+            fd = DatumGen(rng, size_budget=20, big=0.0, mappings=0.0).gen(fnode)
+            if not (RC.float_out_of_range(fnode, fd) or RC.raw_under_logical(fnode, fd)):
+                st, raw = guard(op_cwrite, fa, copy.deepcopy(fjs), [fd], rng.choice(["null", "deflate"]))
+                if st == "ok":
+                    name, args = "cappend", (raw, sarg, [fd if rng.random() < 0.7 else d])
+                    if fkey != which:
+                        sh.count("append_to_file_of_other_definition")
         elif kind == "tee_block":
             st, raw = guard(op_cwrite, fa, copy.deepcopy(js), [d, d, d], rng.choice(["null", "deflate"]))
             if st == "ok":
